@@ -54,6 +54,9 @@ type Engine struct {
 	// callee on which the (last) error result may be nil.
 	NonNilOnSuccess func(site *ssa.Call, idx int) bool
 	Err             error
+	// boundMethod: set while an opaque call through a bound method value is
+	// recorded (the method's name)
+	boundMethod string
 }
 
 func NewEngine(w *World) *Engine {
@@ -1479,9 +1482,30 @@ func (e *Engine) call(st *State, x *ssa.Call) ([]*State, []Path) {
 	if callee != nil {
 		name = callee.String()
 	}
+	// a bound method value (x.M passed around as a function): the call is the
+	// method call on the bound receiver
+	method := ""
+	if callee != nil && strings.HasSuffix(callee.Name(), "$bound") && len(callee.FreeVars) == 1 && len(binds) == 1 {
+		rt := callee.FreeVars[0].Type()
+		mname := strings.TrimSuffix(callee.Name(), "$bound")
+		r := binds[0]
+		if types.IsInterface(rt) {
+			recv, callee, binds, method = &r, nil, nil, mname
+			name = "invoke " + rt.String() + "." + mname
+			if r.Kind == KIface && r.Dyn != nil && r.Inner != nil {
+				if m := e.w.methodOf(r.Dyn, mname); m != nil {
+					callee, name = m, m.String()
+					args = append([]AV{*r.Inner}, args...)
+				}
+			}
+		} else if m := e.w.methodOf(rt, mname); m != nil {
+			callee, binds, name = m, nil, m.String()
+			args = append([]AV{r}, args...)
+		}
+	}
 
 	// unwrap synthetic wrappers (e.g. (*T).M wrapper around (T).M)
-	inlinable := callee != nil && callee.Blocks != nil && e.w.InRepo(callee) && !e.NoInline[callee] &&
+	inlinable := callee != nil && callee.Blocks != nil && e.w.Inlinable(callee) && !e.NoInline[callee] &&
 		len(e.stack) < e.MaxDepth && !e.onStack(callee) && len(callee.FreeVars) == len(binds)
 	if inlinable {
 		sub := st.clone()
@@ -1530,7 +1554,9 @@ func (e *Engine) call(st *State, x *ssa.Call) ([]*State, []Path) {
 		// fall through: treat as opaque
 	}
 
+	e.boundMethod = method
 	res := e.opaqueCall(st, x, name, callee, recv, args)
+	e.boundMethod = ""
 	st.env[x] = res
 	return []*State{st}, nil
 }
@@ -1567,6 +1593,8 @@ func (e *Engine) opaqueCall(st *State, x *ssa.Call, name string, callee *ssa.Fun
 	ev := Event{Kind: "call", Callee: name, Recv: recv, Args: args, Instr: x, Fn: x.Parent(), Static: callee, Depth: len(e.stack) - 1}
 	if x.Call.IsInvoke() {
 		ev.Method = x.Call.Method.Name()
+	} else if e.boundMethod != "" {
+		ev.Method = e.boundMethod
 	} else if callee != nil {
 		ev.Method = callee.Name()
 	}
